@@ -13,7 +13,9 @@
    exercise the same facts on the real crates. *)
 From Coq Require Import NArith Bool List.
 Import ListNotations.
-From XetModel Require Import Base.Codec Gen.ShardLayout Gen.DedupFacts Model.Merkle Model.Shard Model.Dedup Proofs.PipelineProofs Proofs.ResolveProofs.
+From Coq Require Import Permutation.
+From XetModel Require Import Model.Cache Model.Chunker Model.Reconstruct Model.Xorb Proofs.ChunkerLaws Proofs.XorbProofs Proofs.XorbWholeProofs Proofs.EndToEndProofs.
+From XetModel Require Import Base.Codec Gen.ShardLayout Gen.DedupFacts Gen.XorbLayout Model.Merkle Model.Shard Model.Dedup Proofs.PipelineProofs Proofs.ResolveProofs.
 Open Scope N_scope.
 
 (* the deduper records exactly the fed chunks (so the file hash and the verification data describe the fed stream) *)
@@ -54,9 +56,58 @@ Example C01_premises_satisfiable :
   DoneRec ex_F (s_shard_files (srun true ex_cfg2 ex_ops)) (fst (fst (fst ex_fin)), [ex_c1; ex_c2; ex_c1]) /\ length (f_info ex_file) = 2%nat.
 Proof. exact (conj ex_StoreOk ex_session_resolves). Qed.
 
+
+(* ---- composed: the bytes written by a download are the bytes that were cleaned ----
+   C04 (the chunks of a file concatenate to it, for every split into calls), the resolution theorem above, C07 (a chunk
+   range of a serialized xorb reads back as the concatenation of its chunks) and C17 (the writers write exactly the
+   requested slice of the concatenated terms) put together.  [content h] is the chunk data the store returns for chunk
+   hash h, [hashf] the chunk hash function; the one assumption about them is that the store returns, for the hash of each
+   of the file's chunks, that chunk (no two different chunks of the store under one hash).  [term_of content F s] is the
+   chunk range [start, end) of the xorb that segment s names. *)
+Theorem C01_upload_then_download : forall (content : hash -> bytes) (hashf : bytes -> hash) F U rc cf ops target c calls chs fh,
+  chunker_new target = Some c -> api_ok calls = true -> run_calls c st0 calls = Some chs ->
+  StoreOk F U -> Forall (op_ok F U) ops -> (forall x, In x (s_uploaded (srun rc cf ops)) -> In x F) ->
+  In (fh, ids_of hashf chs) (ghosts ops) ->
+  (forall ch, In ch chs -> content (hashf ch) = ch) ->
+  let data := concat (map fst calls) in
+  exists fi, In fi (s_shard_files (srun rc cf ops)) /\ fi_hash fi = fh /\
+    let terms := map (term_of content F) (fi_segs fi) in
+    seq_write terms true 0 (lenN data) = Some data /\
+    forall order out n, Permutation order (seq 0 (length terms)) -> par_write terms (map lenN terms) 0 (lenN data) order = Some (out, n) -> out = data.
+Proof. exact upload_then_download. Qed.
+(* the record-level step alone: any record that resolves to the identities of a file's chunks downloads to the file's bytes *)
+Theorem C01_record_downloads_to_bytes : forall (content : hash -> bytes) (hashf : bytes -> hash) F segs chs,
+  (forall ch, In ch chs -> content (hashf ch) = ch) ->
+  resolve_file F segs = Some (ids_of hashf chs) ->
+  let terms := map (term_of content F) segs in let data := concat chs in
+  seq_write terms true 0 (lenN data) = Some data /\
+  forall order out n, Permutation order (seq 0 (length terms)) -> par_write terms (map lenN terms) 0 (lenN data) order = Some (out, n) -> out = data.
+Proof. exact record_downloads_to_bytes. Qed.
+(* and the term is what the range read of the serialized xorb returns, for every compression scheme, when the xorb was
+   serialized from the chunk data that [content] returns for its recorded chunk hashes *)
+Theorem C01_term_is_xorb_range_read : forall (content : hash -> bytes) lz4c lz4d choose F s x xs hashes scheme,
+  (forall y, lz4d (lz4c y) = Some y) -> (forall y, choose y <= MAX_SCHEME) ->
+  st_find F (sg_cas s) = Some x -> map (fun e => content (ce_hash e)) (ci_chunks x) = xs ->
+  xorb_input_ok (ci_hash x) xs hashes -> fold_right N.add 0 (phys_lens lz4c choose xs scheme) < 4294967296 ->
+  bytes_eqb (ci_hash x) zero_hash = false -> scheme_valid scheme -> sg_start s < sg_end s -> sg_end s <= N.of_nat (length xs) ->
+  get_bytes_by_chunk_range lz4d (built_info lz4c choose (ci_hash x) xs hashes scheme) (xorb_serialize lz4c choose (ci_hash x) xs hashes scheme) (sg_start s) (sg_end s)
+  = ROk (term_of content F s).
+Proof. exact term_is_xorb_range_read. Qed.
+(* the premises are met by the session above with chunk bytes behind the identities; the download computes to the file *)
+Example C01_end_to_end_example :
+  exists fi, In fi (s_shard_files (srun true ex_cfg2 ex_ops)) /\ length (fi_segs fi) = 2%nat /\
+    (forall ch, In ch e2e_chs -> e2e_content (e2e_hashf ch) = ch) /\
+    resolve_file ex_F (fi_segs fi) = Some (ids_of e2e_hashf e2e_chs) /\
+    seq_write (map (term_of e2e_content ex_F) (fi_segs fi)) true 0 40 = Some (concat e2e_chs).
+Proof. exact e2e_example. Qed.
+
 Print Assumptions C01_fed_chunks_recorded_partial.
 Print Assumptions C01_file_record_resolves.
 Print Assumptions C01_invariant_gives_resolution.
 Print Assumptions C01_finalize_hands_over.
 Print Assumptions C01_session_records_resolve.
 Print Assumptions C01_premises_satisfiable.
+Print Assumptions C01_upload_then_download.
+Print Assumptions C01_record_downloads_to_bytes.
+Print Assumptions C01_term_is_xorb_range_read.
+Print Assumptions C01_end_to_end_example.
